@@ -49,7 +49,7 @@ structure Facts where
   addPeekFirst : Bool           -- handleAdd: `ca.Peek` + ErrDupKey return precede addFn
   addSetAfterCheck : Bool
   updateSetAfterCheck : Bool    -- both branches of handleUpdate
-  updOrAddSetAfterCheck : Bool  -- the four Set sites of handleMixUpdOrAddIfNull
+  updOrAddSetAfterCheck : Bool  -- the three Set sites of handleMixUpdOrAddIfNull
   upsertLoadSetAfterCheck : Bool
   upsertRenewSetAfterCheck : Bool   -- and no Set on the miss branch
   getFastPath : Bool            -- Worker.DoGet: `ca.Get` hit returns, else asyncCall(NewLoad)
